@@ -7,7 +7,8 @@ from typing import Dict, List, Optional, Tuple
 
 from .. import terms as tm
 from ..interp import Event, Interp, Result
-from ..lib import fmt, is_call_to, norm_loops, sweep
+from ..lib import fmt, index_position, is_call_to, norm_loops, \
+    seq_position, sweep
 from ..progdb import AnalysisError, Function
 from ..terms import T, const
 
@@ -631,7 +632,7 @@ def _propagate(ctx, f, res: Result, selfp: T, tpar: T, mode: str):
         l, r_ = ops
         if l.op != "sub":
             continue
-        rp = _seq_position(r_)
+        rp = seq_position(r_)
         if rp is None or not any(x is y.data["result"] for y in rels
                                  for x in rp[3].walk()):
             continue
@@ -644,7 +645,7 @@ def _propagate(ctx, f, res: Result, selfp: T, tpar: T, mode: str):
                     f"pose new[{l.args[1].args[1]}]")
             break
         else:
-            q = _index_position(l.args[1])
+            q = index_position(l.args[1])
             lp = q
         if lp is None or lp[0] != rl or rc is None:
             continue
@@ -668,98 +669,9 @@ def _propagate(ctx, f, res: Result, selfp: T, tpar: T, mode: str):
            key="C08.5:transform:propagate:accumulate")
 
 
-def _count(x: T):
-    """length of an index source relative to n = number of poses: 0 for n,
-    -1 for n-1; None when unknown."""
-    if x.op == "call" and tm.callee_name(x) == "builtins.len":
-        return 0
-    if x.op == "binop" and x.args[0] == "Sub" and \
-            tm.is_const(x.args[2]) and isinstance(x.args[2].args[1], int):
-        c = _count(x.args[1])
-        return None if c is None else c - x.args[2].args[1]
-    return None
-
-
-def _index_source(x: T):
-    """(offset, count) of an index sequence 0+offset, 1+offset, ...: range(N),
-    np.arange(0, N, 1) and their [1:] / [:-1] slices."""
-    if x.op == "sub" and x.args[1].op == "slice":
-        lo, hi, st = x.args[1].args
-        inner = _index_source(x.args[0])
-        if inner is None or st is not tm.NONE:
-            return None
-        o, c = inner
-        if c is None:
-            return None
-        if lo is not tm.NONE:
-            if not (tm.is_const(lo) and isinstance(lo.args[1], int)
-                    and lo.args[1] >= 0):
-                return None
-            o, c = o + lo.args[1], c - lo.args[1]
-        if hi is not tm.NONE:
-            if not (tm.is_const(hi) and isinstance(hi.args[1], int)
-                    and hi.args[1] < 0):
-                return None
-            c = c + hi.args[1]
-        return o, c
-    if x.op == "call" and tm.callee_name(x) in ("builtins.range",
-                                                "numpy.arange"):
-        pos = list(x.args[1])
-        if len(pos) == 1:
-            return 0, _count(pos[0])
-        if len(pos) in (2, 3) and tm.is_const(pos[0], 0) and \
-                (len(pos) == 2 or tm.is_const(pos[2], 1)):
-            return 0, _count(pos[1])
-    return None
-
-
-def _index_position(i: T):
-    """(loop id, offset, count) of an index term k+offset."""
-    off = 0
-    while i.op == "binop" and i.args[0] == "Add" and \
-            tm.is_const(i.args[2]) and isinstance(i.args[2].args[1], int):
-        off += i.args[2].args[1]
-        i = i.args[1]
-    if i.op != "elem":
-        return None
-    src = _index_source(i.args[0])
-    if src is None:
-        return None
-    return i.args[1], off + src[0], src[1]
-
-
-def _seq_position(p: T):
-    """p as element k+offset of some sequence: (loop id, offset, count
-    relative to the sequence length, sequence)."""
-    if p.op == "sub" and p.args[1].op != "slice":
-        q = _index_position(p.args[1])
-        if q is None:
-            return None
-        return q[0], q[1], q[2], p.args[0]
-    if p.op == "elem":
-        seq, off, cnt = p.args[0], 0, 0
-        while seq.op == "sub" and seq.args[1].op == "slice":
-            lo, hi, st = seq.args[1].args
-            if st is not tm.NONE:
-                return None
-            if lo is not tm.NONE:
-                if not (tm.is_const(lo) and isinstance(lo.args[1], int)
-                        and lo.args[1] >= 0):
-                    return None
-                off, cnt = off + lo.args[1], cnt - lo.args[1]
-            if hi is not tm.NONE:
-                if not (tm.is_const(hi) and isinstance(hi.args[1], int)
-                        and hi.args[1] < 0):
-                    return None
-                cnt += hi.args[1]
-            seq = seq.args[0]
-        return p.args[1], off, cnt, seq
-    return None
-
-
 def _position(p: T, Mattr: T):
     """a pose operand as position k+offset of the *original* pose list."""
-    q = _seq_position(p)
+    q = seq_position(p)
     if q is None or q[3] is not Mattr:
         return None
     return q[0], q[1], q[2]
